@@ -115,3 +115,19 @@ PROPS.update({
         "min_reach": {"any": ["fault-bases-fully-enumerated", "fault-variants", "outcome:ok", "outcome:err", "content-compared:graph-matches-document"]},
     },
 })
+
+PROPS.update({
+    "C16": {
+        "level": "exploration",
+        "rule": "complete_graph for EVERY n in 0..=60 (plus 100, 129; thorough adds 64..300 around powers of two) and both kinds: node set {0..n-1}, exactly one edge per (un)ordered pair. karate_club_graph against the reference 78-edge Zachary edge list. fast_gnp_random_graph: n in {0,1,2,3,5,10,30,60 | 100,300} x p in {1e-12,1e-9,1e-6,0.01,0.1,0.3,0.5,0.9,0.999999} x both kinds x 60 (200) seeds: Ok, node set {0..n-1}, no self-loop, no repeated pair, and |mean edge count - p*N| <= p*N/(n-1) + 6*sqrt(N p (1-p)/S); n in 2..=6 at p=0.5 over 400 seeds: every possible pair occurs; p in {1e-9,3e-10,1e-10} x n in {3,30,300} over 3000 (40000) seeds (huge skips); p in {0,1,-0.1,1.5,NaN,inf,-0.0,1+ulp} must give InvalidArgument. Non-trivial = every configuration; distinct = distinct configurations.",
+        "assumptions": COMMON + ["statistical test: the property's own 1/(n-1) relative allowance plus a 6-sigma sampling term (false-alarm probability about 2e-9 per configuration for a correct G(n,p)); deterministic per VERIF_SEED"],
+        "min_reach": {"any": ["complete_graph:checked", "karate:checked", "gnp:invalid-p-rejected", "gnp:mean-tested-configurations", "gnp:pair-occurrence-configurations", "gnp:tiny-p-configurations"]},
+    },
+    "C17": {
+        "custom": "c17",
+        "level": "exploration",
+        "rule": "case list: seeded fast_gnp_random_graph (n up to 600), seeded louvain_partitions / louvain_communities on tie-rich graphs (paths, cycles, complete, bipartite, grids, ladders, stars, barbells, plus G(n,p); unweighted or exact weights so that every difference is a tie-break effect), and the discrete outputs of non-randomised algorithms (all_pairs distances bits + path sets, components, triangles, generalized degree, bfs partitions). Each case is repeated 10 (30) times in one process - the graph is rebuilt each time so every hash table is re-keyed, and repetitions run under caller-installed rayon pools of 1, 2, 3 and 16 threads - and its canonical result (sets of sets, sorted) must not change; then 3 (6) passes of fresh processes with RAYON_NUM_THREADS in {1,2,16,...} compute a digest per (case, function) and the digests must agree. Non-trivial = every case; distinct = distinct case indexes.",
+        "assumptions": COMMON + ["floating-point outputs of non-randomised algorithms are not part of the cross-process digests (rounding of sums is allowed by the statement); Louvain is only run on unweighted or exact-dyadic weights", "hash iteration order cannot be forced; reach comes from re-keying (every HashMap::new draws new keys) across 10-30 repetitions and 3-6 processes"],
+        "min_reach": {"any": ["reach:louvain-on-tie-rich-graph", "reach:call-under-pool-of-16-threads", "reach:call-under-pool-of-1-threads", "reach:fresh-processes-compared", "cases:kind0"]},
+    },
+})
